@@ -1,6 +1,220 @@
-//! C02 monitor (not built yet)
-use vcore::{Args, Report};
+//! C02 — a connection survives an adversarial network without corrupting data.
+//!
+//! Real client + server over SimNet under virtual time.  Bounded-fault scenarios must complete
+//! (handshake + every transfer) before `faults_end + D`; unbounded-fault scenarios (permanent
+//! black-out, one-way mute, 100 % corruption from T_b) must resolve every application future
+//! before `T_b + idle_client + idle_server + 10 s`.  In both kinds every byte read is checked
+//! against the position-derived PRF, every panic anywhere in the process is a violation, and
+//! the qlog of both endpoints must never show one packet number accepted twice.
+use std::time::Duration;
 
-pub fn run(_args: &Args, rep: &mut Report) {
-    rep.inconclusive("monitor not built yet");
+use serde_json::{Value, json};
+use vcore::{Args, Report, Rng};
+
+use crate::{
+    oracle,
+    scenario::{self, Outcome, Spec},
+    sim::FaultProfile,
+    world::LogMode,
+};
+
+pub const BOUNDED_D_MS: u64 = 60_000;
+
+#[derive(Clone, Debug)]
+pub struct Case {
+    pub spec: Spec,
+    /// Some(faults_end_ms) for bounded, None for unbounded
+    pub bounded_until_ms: Option<u64>,
+    pub tb_ms: Option<u64>,
+    pub label: String,
+}
+
+impl Case {
+    pub fn to_json(&self) -> Value {
+        json!({"kind": "c02", "spec": self.spec.to_json(), "bounded_until_ms": self.bounded_until_ms, "tb_ms": self.tb_ms, "label": self.label})
+    }
+    pub fn from_json(v: &Value) -> Case {
+        Case {
+            spec: Spec::from_json(&v["spec"]),
+            bounded_until_ms: v["bounded_until_ms"].as_u64(),
+            tb_ms: v["tb_ms"].as_u64(),
+            label: v["label"].as_str().unwrap_or("").to_string(),
+        }
+    }
+}
+
+pub fn gen_bounded(rng: &mut Rng, seed: u64) -> Case {
+    let params = scenario::gen_params(rng);
+    let tf = Duration::from_millis(rng.range(500, 8000));
+    let c2s = scenario::gen_bounded_faults(rng, tf);
+    let s2c = if rng.chance(1, 3) { c2s.clone() } else { scenario::gen_bounded_faults(rng, tf) };
+    let window = params.max_data.min(params.stream_data) as usize;
+    let max_total = if window < 32 * 1024 { 120_000 } else { 2_500_000 };
+    let jobs = scenario::gen_jobs(rng, &params, max_total);
+    let total: usize = jobs.iter().map(|j| j.size * if j.kind == scenario::JobKind::BidiEcho { 2 } else { 1 }).sum();
+    // allowance: D plus a very conservative transfer time (4 KB/s)
+    let deadline = tf + Duration::from_millis(BOUNDED_D_MS) + Duration::from_millis(total as u64 / 4);
+    let label = format!("bounded loss {}/{} dup {}/{} jit {}/{} trunc {}/{} flip {}/{} blackouts {}/{}", c2s.loss, s2c.loss, c2s.dup, s2c.dup, c2s.jitter.as_millis(), s2c.jitter.as_millis(), c2s.truncate, s2c.truncate, c2s.flip, s2c.flip, c2s.blackouts.len(), s2c.blackouts.len());
+    Case {
+        spec: Spec { seed, params, c2s, s2c, jobs, datagrams: vec![], log: LogMode::Capture, with_qlog: true, deadline, clean_close: true },
+        bounded_until_ms: Some(tf.as_millis() as u64),
+        tb_ms: None,
+        label,
+    }
+}
+
+pub fn gen_unbounded(rng: &mut Rng, seed: u64) -> Case {
+    let mut params = scenario::gen_params(rng);
+    params.idle_client_ms = rng.range(5, 15) * 1000;
+    params.idle_server_ms = rng.range(5, 15) * 1000;
+    let tb = Duration::from_millis(*rng.pick(&[0u64, 5, 15, 30, 60, 150, 400, 1000, 3000]));
+    let lat = Duration::from_millis(*rng.pick(&[1, 10, 25]));
+    let mut c2s = FaultProfile { latency: lat, ..Default::default() };
+    let mut s2c = FaultProfile { latency: lat, ..Default::default() };
+    let which = rng.below(4);
+    let label = match which {
+        0 => {
+            c2s.dead_from = Some(tb);
+            s2c.dead_from = Some(tb);
+            "blackout"
+        }
+        1 => {
+            c2s.dead_from = Some(tb);
+            "mute-c2s"
+        }
+        2 => {
+            s2c.dead_from = Some(tb);
+            "mute-s2c"
+        }
+        _ => {
+            c2s.corrupt_from = Some(tb);
+            s2c.corrupt_from = Some(tb);
+            "corrupt"
+        }
+    };
+    let mut jobs = scenario::gen_jobs(rng, &params, 600_000);
+    // make sure something is still in progress when the network dies
+    jobs.push(scenario::Job { kind: scenario::JobKind::BidiEcho, size: 400_000, chunk: 4096 });
+    let deadline = tb + Duration::from_millis(params.idle_client_ms + params.idle_server_ms + 10_000);
+    Case {
+        spec: Spec { seed, params, c2s, s2c, jobs, datagrams: vec![], log: LogMode::Capture, with_qlog: true, deadline, clean_close: false },
+        bounded_until_ms: None,
+        tb_ms: Some(tb.as_millis() as u64),
+        label: format!("unbounded {label} at {} ms", tb.as_millis()),
+    }
+}
+
+pub struct Verdict {
+    pub findings: Vec<oracle::Finding>,
+    pub handshake_ok: bool,
+    pub all_complete: bool,
+}
+
+pub fn evaluate(case: &Case, out: &Outcome) -> Verdict {
+    let mut f = vec![];
+    f.extend(oracle::check_data(out));
+    f.extend(oracle::check_datagrams(out));
+    f.extend(oracle::check_panics(out));
+    let (pf, _) = oracle::check_packet_numbers(out, true, false);
+    f.extend(pf);
+    let hs = out.shared.handshake_ms.is_some();
+    let all_complete = out.shared.jobs.iter().all(|j| j.complete());
+    if case.bounded_until_ms.is_some() {
+        if !hs {
+            f.push(("liveness.bounded:handshake".into(), format!("handshake not complete {} ms (virtual) after the faults ended [{}]", out.spec.deadline.as_millis() as u64 - case.bounded_until_ms.unwrap(), case.label)));
+        } else if !out.finished || !all_complete {
+            let stuck: Vec<String> = out.shared.jobs.iter().enumerate().filter(|(_, j)| !j.complete()).map(|(i, j)| format!("#{i} {}", j.to_json())).take(3).collect();
+            f.push(("liveness.bounded:transfer".into(), format!("transfers incomplete at the virtual deadline ({} ms; faults ended at {} ms) [{}]: {}", out.spec.deadline.as_millis(), case.bounded_until_ms.unwrap(), case.label, stuck.join(" "))));
+        }
+    } else if !out.finished {
+        let pending: Vec<String> = out.shared.jobs.iter().enumerate().filter(|(_, j)| j.done_ms.is_none() && j.open_err.is_none()).map(|(i, j)| format!("#{i} {}", j.to_json())).take(3).collect();
+        f.push(("failure.bounded".into(), format!("application futures still pending {} ms (virtual) after the network failed for good [{}]; client_term={:?} server_term={:?}: {}", out.spec.deadline.as_millis() as u64 - case.tb_ms.unwrap_or(0), case.label, out.shared.client_term, out.shared.server_term, pending.join(" "))));
+    }
+    Verdict { findings: f, handshake_ok: hs, all_complete }
+}
+
+pub fn observe(rep: &mut Report, case: &Case, out: &Outcome, v: &Verdict) {
+    let st = out.net.with(|n| (n.n_sent, n.n_delivered, n.n_dropped, n.n_dup, n.n_trunc, n.n_flip, n.n_reordered));
+    rep.add("datagrams_sent", st.0);
+    rep.add("datagrams_delivered", st.1);
+    rep.add("faults_dropped", st.2);
+    rep.add("faults_duplicated", st.3);
+    rep.add("faults_truncated", st.4);
+    rep.add("faults_bitflipped", st.5);
+    rep.add("faults_reordered", st.6);
+    rep.add("stream_bytes_validated", out.shared.jobs.iter().map(|j| j.read as u64).sum::<u64>() + out.shared.server_uni.values().map(|r| r.0 as u64).sum::<u64>());
+    rep.add("streams", out.shared.jobs.len() as u64);
+    rep.add("qlog_events", out.events.len() as u64);
+    let (_, pn) = oracle::check_packet_numbers(out, false, false);
+    rep.add("qlog_packet_received", pn.received);
+    rep.add("qlog_packet_sent", pn.sent);
+    rep.add("qlog_packet_dropped", pn.dropped_events);
+    rep.add("qlog_packet_lost", pn.lost_events);
+    if case.bounded_until_ms.is_some() {
+        rep.count("bounded_scenarios");
+        if v.handshake_ok {
+            rep.count("bounded_handshakes_completed");
+        }
+        if v.all_complete {
+            rep.count("bounded_all_transfers_completed");
+        }
+    } else {
+        rep.count("unbounded_scenarios");
+        if out.finished {
+            rep.count("unbounded_all_futures_resolved");
+        }
+        if out.shared.client_term.is_some() {
+            rep.count("unbounded_client_told_failure");
+        }
+        if out.shared.server_term.is_some() {
+            rep.count("unbounded_server_told_failure");
+        }
+    }
+    rep.max("max_virtual_ms", out.end_ms);
+}
+
+pub fn run(args: &Args, rep: &mut Report) {
+    rep.rule = "scenario = (transport-parameter config, fault profile per direction, job list) drawn from the seed; distinct = \
+                distinct (fault label, job list, params) tuples; non-trivial = at least one fault was actually applied to a datagram"
+        .into();
+    if let Some(path) = args.get("replay") {
+        let v: Value = serde_json::from_str(&std::fs::read_to_string(path).unwrap()).unwrap();
+        let v = if v.get("replay").is_some() { v["replay"].clone() } else { v };
+        let case = Case::from_json(&v);
+        let out = scenario::run(&case.spec);
+        let ver = evaluate(&case, &out);
+        observe(rep, &case, &out, &ver);
+        rep.evaluations += 1;
+        for (sig, what) in ver.findings {
+            rep.violation(format!("C02.{sig}"), what, case.to_json());
+        }
+        return;
+    }
+    let thorough = args.get("tier") == Some("thorough");
+    let shard = args.u64("shard", 0);
+    let n = args.budget(if thorough { 400 } else { 10 });
+    let mut rng = Rng::new(args.seed() ^ 0xc02).fork(shard);
+    for i in 0..n {
+        let sseed = rng.next_u64();
+        let mut r = rng.fork(i);
+        let case = if r.chance(2, 3) { gen_bounded(&mut r, sseed) } else { gen_unbounded(&mut r, sseed) };
+        let out = scenario::run(&case.spec);
+        let ver = evaluate(&case, &out);
+        observe(rep, &case, &out, &ver);
+        rep.evaluations += 1;
+        let faults = out.net.with(|n| n.n_dropped + n.n_dup + n.n_trunc + n.n_flip + n.n_reordered);
+        if faults > 0 {
+            rep.distinct(vcore::fnv_str(&case.to_json().to_string()));
+        }
+        if i < 2 {
+            rep.sample(json!({"label": case.label, "jobs": case.spec.to_json()["jobs"], "params": case.spec.params.to_json(),
+                "net": out.net.stats_json(), "handshake_ms": out.shared.handshake_ms, "all_done_ms": out.shared.all_done_ms,
+                "client_term": out.shared.client_term, "server_term": out.shared.server_term, "finished": out.finished}));
+        }
+        for (sig, what) in ver.findings {
+            let mut rj = case.to_json();
+            rj["decisions"] = out.net.decision_log();
+            rep.violation(format!("C02.{sig}"), what, rj);
+        }
+    }
 }
